@@ -63,6 +63,20 @@ META["C02"] = {
     "require": {"quick": {"cut_with_pending_timer": 2000, "cut_with_ready_task": 1000}, "thorough": {"cut_with_pending_timer": 50000}},
 }
 
+META["C05"] = {
+    "title": "Flattening delivers every inner item once and honours the concurrency limit",
+    "rule": "cases = (spelling merge_all(n)|concat_all|flatten|flat_map|concat_map, local|_threads, table of k inner observables (quick k<=3, thorough k<=5) each cold-synchronous (create emitting its script, incl. empty and failing ones) or hot (Subject driven later), merged timeline of outer events, hot-inner events and completions). The outer is a hot Subject emitting the indices 0..k once each; all items carry unique ids; every inner is wrapped in a tracked spy that logs subscribe / terminal / unsubscribe. A deterministic battery builds the queued-then-started shapes (hot inner first, cold/hot inners queued behind the limit); the rest are seeded random interleavings biased towards early outer items. Non-trivial: at least one inner was started from the queue when another completed, or two inners were live at once; distinct = hash(case).",
+    "assumptions": COMMON_ASSUME + [
+        "exact sequential reference model of merge_all(n) (running set, FIFO queue, completion iff outer done and nothing running or queued, first error wins); a hot inner loses events emitted while it is not subscribed",
+        "single-threaded drive here; the two-thread interleavings of the _threads forms are explored by C10's baton scenarios",
+    ],
+    "technique": "runtime monitoring: recording probe + tracked inner observables on the real flattening operators, conservation/order/limit/completion checked against an exact sequential model; panic monitor and lock-hook self-deadlock detector",
+    "level_text": "Exploration: every sampled higher-order timeline is executed on the real operator (both forms) and compared with the model; the running-inner counter is read off the tracked inners at every log position.",
+    "level_note": "Trusted: the merge_all model in harness/src/props/c05.rs, probe/spy, the lock hook (a re-lock of a held MutArc cell by the only running thread is reported as deadlock).",
+    "design_ref": "DESIGN.md §5 C05",
+    "require": {"quick": {"cases_with_queued_then_started_inner": 5000, "operators_covered": 10}, "thorough": {"cases_with_queued_then_started_inner": 100000, "operators_covered": 10}},
+}
+
 
 # properties without a check yet are listed here with the reason; the list shrinks as checks land
 ALL_IDS = ['C01', 'C02', 'C03', 'C04', 'C05', 'C06', 'C07', 'C08', 'C09', 'C10', 'C11', 'C12', 'C13', 'C14', 'C15', 'C16', 'C17', 'C18', 'C19', 'C20']
